@@ -483,7 +483,7 @@ impl<Traits: ?Sized + Trait, M: MemBuilder> AnyVec<Traits, M>
     #[inline]
     pub fn spare_bytes_mut(&mut self) -> &mut [MaybeUninit<u8>]{
         unsafe{from_raw_parts_mut(
-            self.raw.mem.as_mut_ptr().add(self.len()) as *mut MaybeUninit<u8>,
+            self.raw.mem.as_mut_ptr().add(self.len() * self.element_layout().size()) as *mut MaybeUninit<u8>,
             (self.capacity() - self.len()) * self.element_layout().size()
         )}
     }
